@@ -462,6 +462,19 @@ class Resolver:
         finally:
             self._busy.discard(key)
 
+    def constant_tuple(self, name: str, fn: FuncInfo):
+        """Module-level `NAME = (<constants>, ...)` (immutable, hence a true constant) -> its literal."""
+        f = fn
+        while f is not None:
+            a = f.node.args if not isinstance(f.node, ast.Lambda) else None
+            if a is not None and name in [x.arg for x in a.posonlyargs + a.args + a.kwonlyargs]:
+                return None
+            f = f.parent
+        g = self.lookup_global(name, fn.module)
+        if g and g[0] == "value" and isinstance(g[1], ast.Tuple) and all(isinstance(e, ast.Constant) for e in g[1].elts):
+            return g[1]
+        return None
+
     def property_getter(self, t: ast.Attribute, st) -> Optional[FuncInfo]:
         """The getter when `t` (a substituted Attribute term) reads a property of a package class."""
         if not any(t.attr in c.methods for c in self.p.classes.values()):
